@@ -113,7 +113,38 @@ pub fn encode_index(
     let empty_off = syn_off + syn_size;
     let empty_size: u32 = if populate_secondary { 256 } else { 0 };
     let dir_off = empty_off + empty_size;
-    let dir_size: u32 = if populate_secondary && !index2 { 16 * 2 } else { 0 };
+    // folder table of an .index file: one entry per folder hash, naming the run of file entries
+    // of that folder (only a table sorted by key keeps a folder's files together; the other
+    // orders carry two entries for folders that hold nothing)
+    let folders: Vec<(u32, u32, u32)> = if populate_secondary && !index2 {
+        if table_order == 1 {
+            vec![(0x1000, table_off, 16), (0x1001, table_off, 16)]
+        } else {
+            let mut keys: Vec<u64> = entries
+                .iter()
+                .map(|s| {
+                    let (name, folder) = split_hash(&s.path);
+                    ((folder as u64) << 32) | name as u64
+                })
+                .collect();
+            keys.sort();
+            if table_order == 2 {
+                keys.reverse();
+            }
+            let mut out: Vec<(u32, u32, u32)> = vec![];
+            for (i, k) in keys.iter().enumerate() {
+                let f = (*k >> 32) as u32;
+                match out.last_mut() {
+                    Some(last) if last.0 == f => last.2 += 16,
+                    _ => out.push((f, table_off + 16 * i as u32, 16)),
+                }
+            }
+            out
+        }
+    } else {
+        vec![]
+    };
+    let dir_size: u32 = 16 * folders.len() as u32;
 
     e.u32le("ih.size", 0x400);
     e.u32le("ih.version", 1);
@@ -183,14 +214,14 @@ pub fn encode_index(
     if empty_size > 0 {
         e.buf.extend(std::iter::repeat(0xFF).take(empty_size as usize));
     }
-    if dir_size > 0 {
-        for k in 0..2u32 {
-            e.u32le("", 0x1000 + k);
-            e.u32le("", table_off);
-            e.u32le("", 16);
-            e.u32le("", 0);
-        }
+    for (k, (hash, off, size)) in folders.iter().enumerate() {
+        e.set_prefix(&format!("d{}.", k));
+        e.u32le("folder_hash", *hash);
+        e.u32le("files_off", *off);
+        e.u32le("files_size", *size);
+        e.u32le("", 0);
     }
+    e.set_prefix("");
     boundaries.push(e.pos());
     EncodedFile { bytes: e.buf, fields: e.fields, boundaries }
 }
